@@ -940,7 +940,7 @@ pub fn yaml_load(ctx: &Ctx, rng: &mut Rng, o: &mut Out) {
     // correspondence: outcome class + variant of the load stage
     let cmpv = g.cmpv && g.faults.len() <= 1 && !facts.as_ref().map(order_sensitive).unwrap_or(false);
     let args = match facts {
-      Some(f) => json!({"doc": f, "yaml_err": false, "cmpv": cmpv, "yaml": text, "faults": g.faults, "g": if g.use_globals { json!(global_docs(g.lang, &Material { kinds: vec![], snippets: vec![], fields: vec![], ranges: vec![] }).len()) } else { json!(0) }}),
+      Some(f) => json!({"doc": f, "yaml_err": false, "cmpv": cmpv, "yaml": text, "faults": g.faults, "g": if g.use_globals { json!(global_docs(g.lang, &Material { kinds: vec![], snippets: vec![], fields: vec![], ranges: vec![], contexts: vec![] }).len()) } else { json!(0) }}),
       None => json!({"doc": null, "yaml_err": true, "cmpv": cmpv, "yaml": text, "faults": g.faults}),
     };
     let r = match load.as_str() {
